@@ -490,6 +490,9 @@ PTRef Interpret::parseTerm(const ASTNode& term, LetRecords& letRecords) {
             tr = resolveTerm(name, std::move(args));
         } catch (ArithDivisionByZeroException &ex) {
             reportError(ex.what());
+        } catch (LANonLinearException & ex) {
+            // a product of variables, a non-constant divisor, ...: reject the term like any other ill-formed one
+            reportError(ex.what());
         } catch (ApiException &e) {
             reportError(e.what());
         }
